@@ -412,10 +412,15 @@ func C03(tier string) int {
 		return 2
 	}
 	nHandler := 0
+	var hmu sync.Mutex
+	var hTypes []string
 	for _, tk := range o.TypeKeys() {
-		if !o.HasProp(tk, "ActivityStreams/object") || !o.HasProp(tk, "ActivityStreams/bto") {
-			continue
+		if o.HasProp(tk, "ActivityStreams/object") && o.HasProp(tk, "ActivityStreams/bto") {
+			hTypes = append(hTypes, tk)
 		}
+	}
+	parallel(len(hTypes), func(ti int) {
+		tk := hTypes[ti]
 		for _, depth := range []int{0, 1, 2, 3, 4, 5, 8, 9, 10, 16, 33} {
 			for _, lst := range []string{"embedded", "iri-then-embedded", "two-embedded", "iri", "after-a-sibling-with-two-children", "three-embedded", "before-a-hidden-sibling"} {
 				if depth == 0 && len(lst) > len("iri-then-embedded") {
@@ -466,10 +471,12 @@ func C03(tier string) int {
 					sc := &Scenario{Name: fmt.Sprintf("handler/%s depth=%d %s %s", tk, depth, lst, h.name), Kind: ap.Both, Entry: "Handler", URL: id,
 						Tweak: func(a *ap.App) { a.PutDoc(docCopy) }}
 					out := sc.Exec(mc.NewExec(nil), false)
+					hmu.Lock()
 					nHandler++
 					res.Case(sc.Name)
 					if out.Panic != nil || out.Err != nil {
 						res.Outcome("handler-error")
+						hmu.Unlock()
 						continue
 					}
 					res.Outcome("served")
@@ -479,10 +486,11 @@ func C03(tier string) int {
 						res.Violate(fmt.Sprintf("hidden-recipient-served|depth=%d|%s", strings.Count(leaks[0], "object"), lst),
 							fmt.Sprintf("%s: the served body carries %v: %s", sc.Name, leaks, string(out.W.Body())), M{"check": "C03", "stored": doc})
 					}
+					hmu.Unlock()
 				}
 			}
 		}
-	}
+	})
 	res.Extra["delivery_runs"] = len(cases)
 	res.Extra["handler_runs"] = nHandler
 	res.Assumptions = []string{"hidden recipients on embedded objects must still receive the delivery only where the library copies them to the activity (bare objects, Social Create)",
